@@ -88,6 +88,18 @@ CLAIMED = {
          'implementations. md5_finish is proved with md5_append inlined and its constant 8/16-iteration loops unwound (complete). Message length restricted to < 2^28 bytes per md5_append call (int nbytes << 3) and '
          '<= 10^6 buffered bytes for SHA-1 (the 32-bit bit count written by get_digest is exact below 2^29 bytes; above that sha1.h truncates - observation). Overflow checks are off in the compression functions (modular arithmetic by definition).',
     design='4 (C16)', technique='cbmc: cut-point (assert-then-assume) equivalence per step, loop contracts with ghost lock-step state machine; dfcc contracts with a ghost block recorder for the streaming layer'),
+ 'C10': dict(
+    text='Slice: the wire format, the key spreading and the per-call L1 handshake. Client tcp_cache::store builds exactly key ++ value ++ (trigger ++ NUL)* with the three length fields and size = their sum, deadline unchanged; '
+         'server session::store accepts a message only if the three lengths add up to the payload size (in 64 bit - a genuine defect, the 32-bit sum wrapped, was repaired) and hands the cache exactly message[0,key_len), '
+         'message[key_len,key_len+data_len) and the NUL-separated pieces of the rest (load_triggers = split at NULs, empty piece rejected); server session::fetch answers uptodate exactly when asked and the generation the cache '
+         'holds NOW equals the client generation, otherwise value ++ trigger list with data_len/triggers_len/size/generation/timeout set consistently; client tcp_cache::fetch sends key/flags/generation and parses that reply inside its bounds; '
+         'to_time_t is the identity (deadlines survive); tcp_connector::hash is a pure function of key bytes and server count with an in-range result (same key, same server on every node); cache_over_ip::fetch consults the server exactly '
+         'once on EVERY fetch, serves the L1 copy only when the server confirmed its generation in that call, otherwise the server value, refreshes / drops the L1 entry accordingly; on_header_in sizes the payload buffer to the announced size. '
+         'All for every key/value/trigger content (NUL bytes, empty values, any number of triggers) up to 10^6 bytes.',
+    note=TRUST + 'NOT covered: the multi-node history statement itself (that no later fetch on any node returns an older value) is a pen-and-paper composition of the per-call contracts above with "mem_cache gives every store a fresh generation" '
+         '(mem_cache is template/STL code, see C07) - no obligation states it; sockets, reconnect in messenger::transmit, broadcast of rise/clear, session opcodes. std::string / std::set / std::vector are (pointer,length) models with recorders; '
+         'messenger::transmit is assumed to deliver bytes unchanged. The unsigned-wrap check is off in the two NUL splitters (int -= unsigned by design). Observation (not a violation of the statement): a fetch refreshed through L1 reports the union of old and new triggers.',
+    design='4 (C10)', technique='cbmc code contracts (dfcc) + loop contracts; ghost recorders for cache/transmit calls, position-observing output sink, offset-table model of std::set<std::string>'),
  'C18': dict(
     text='read_from_file is proved against EVERY file content (hence every torn state of every save over every earlier state): a load succeeds only if the file holds a complete 16-byte header and '
          '`size` payload bytes, the stored deadline is not in the past, and the checksum verified is that of exactly those payload bytes; on failure the caller\'s data and timeout are untouched. '
@@ -113,7 +125,6 @@ CLAIMED = {
 NOT_APPLICABLE = {
  'C03': 'not claimed: the one C-like function attempted (aio::details::advance) is a walking-pointer/result-list shape whose loop-contract proof does not close in cbmc 6.11 (specs/wip); header assembly, chunked/FastCGI framing, gzip and the streambuf chain are C++ object code outside the C front end. No obligation set is discharged on every run, so nothing is claimed.',
  'C08': 'not built: limit/LRU/eviction order is a history property over the templated mem_cache (see C07); the C-like slice (buddy allocator bit arithmetic) is designed but no contract unit exists yet.',
- 'C10': 'not built: L1/L2 coherence across nodes is a history/schedule property; the C-like slice (cache-server frame length checks, where a 32-bit sum of three lengths can wrap: observation in DESIGN.md section 5) has no contract unit yet.',
  'C07': 'mem_cache<Setup> is class-template/STL-iterator code (hash_map, std::list, std::multimap with stored iterators) that cbmc\'s C++ front end cannot parse and that no token-level extraction to C preserves; the property is a statement over operation histories, not over one call.',
  'C09': 'concurrency / linearizability over thread schedules: cbmc code contracts are sequential; no contract within reach expresses interleavings of the templated cache code and booster mutexes.',
  'C17': 'exactly-once delivery under thread/event-loop schedules (io_service, reactor, thread_pool): a schedule property over C++ callback code; sequential contracts cannot express it.',
